@@ -3,6 +3,7 @@
   Property theorems about `N2V.Canon` (model of canon.rs::canonicalize_path).
 -/
 import N2V.Model.Canon
+import N2V.Lemmas.Canon
 namespace N2V.C13
 open N2V N2V.Canon
 
@@ -73,5 +74,43 @@ theorem empty_refused : canon [] = .panic "assertion failed: !path.is_empty()" :
 /-- Non-vacuity: a concrete spelling (`a/./b//../c\\..`) with every special case in it. -/
 example : canon [97,47,46,47,98,47,47,46,46,47,99,92,92,46,46] = .ok [97,47] := by
   simp [canon, go, classify, isSep, dot, dotdot, finish]
+
+
+/-! ### Functional correctness (Lemmas/Canon: the byte-level loop with its two cursors and offset
+    stack is simulated by a fold over the path's components) -/
+
+/-- **`canonicalize_path` computes the specification**: for every non-empty path — any length,
+    any number of components, any mixture of `/` and `\` — the result is the rendering of what
+    the path denotes: its root separator if any, the leading `..` that cannot be resolved, and
+    the remaining names each with the separator byte that followed it (`.`, empty components
+    and `name/..` pairs are gone; a trailing separator is kept: it is significant). -/
+theorem spec (s : Bytes) (hne : s ≠ []) : canon s = .ok (render (denote s)) := canon_spec s hne
+
+/-- **Same location**: the canonical form denotes what the original spelling denotes. -/
+theorem same_location (s t : Bytes) (h : canon s = .ok t) : denote t = denote s := denote_canon s t h
+
+/-- **Idempotent**: canonicalising a canonical form changes nothing. -/
+theorem idempotent (s t : Bytes) (h : canon s = .ok t) : canon t = .ok t := canon_idem s t h
+
+/-- **Normal form**: a canonical form is its own rendering, and none of its names is empty, `.`
+    or `..` or contains a separator (every `..` left is a leading one, recorded in `ups`). -/
+theorem normal_form (s t : Bytes) (h : canon s = .ok t) :
+    render (denote t) = t ∧
+    ∀ n ∈ (denote t).names, n.1 ≠ [] ∧ n.1 ≠ [dot] ∧ n.1 ≠ [dot, dot] ∧ ∀ b ∈ n.1, isSep b = false :=
+  canon_normal s t h
+
+/-- **One node per location**: two spellings get the same canonical bytes — hence the same graph
+    node, since nodes are looked up by canonical name — exactly when they denote the same
+    location. -/
+theorem one_node_per_location (s s' t t' : Bytes) (h : canon s = .ok t) (h' : canon s' = .ok t') :
+    t = t' ↔ denote s = denote s' := canon_eq_iff s s' t t' h h'
+
+/-- Non-vacuity: `a/./b/../c//d/` and `a\c/d/`... denote the same location as `a/c/d/` up to the
+    separator bytes that are kept; `foo/../..` keeps one leading `..`. -/
+example : canon [97, 47, 46, 47, 98, 47, 46, 46, 47, 99, 47, 47, 100, 47] = .ok [97, 47, 99, 47, 100, 47] := by
+  rw [spec _ (by decide)]; decide
+example : canon [102, 47, 46, 46, 47, 46, 46] = .ok [46, 46] := by
+  rw [spec _ (by decide)]; decide
+example : denote [97, 47, 98] ≠ denote [97, 47, 98, 47] := by decide
 
 end N2V.C13
